@@ -19,7 +19,14 @@ const SESSION: u16 = 0x1234;
 #[derive(Default)]
 struct Wire {
     inbox: VecDeque<u8>,
-    replies: VecDeque<(Vec<u8>, bool)>,
+    replies: VecDeque<(Vec<u8>, bool, Value)>,
+    /// octets handed out per read at most
+    chunk: usize,
+    /// (trace driver) what the cache wrote, logged when it is released
+    log: Vec<Value>,
+    fallback_desc: Value,
+    /// the rest of a PDU of which only the first octets have been delivered: it precedes whatever the cache writes next
+    rest: Vec<u8>,
     eof: bool,
     waker: Option<Waker>,
     consumed: usize,
@@ -35,7 +42,7 @@ impl AsyncRead for Sock {
     fn poll_read(self: Pin<&mut Self>, cx: &mut Context<'_>, buf: &mut ReadBuf<'_>) -> Poll<std::io::Result<()>> {
         let mut w = self.0.lock().unwrap();
         if !w.inbox.is_empty() {
-            let n = buf.remaining().min(w.inbox.len()).min(7);
+            let n = buf.remaining().min(w.inbox.len()).min(if w.chunk == 0 { 7 } else { w.chunk });
             for _ in 0..n {
                 let b = w.inbox.pop_front().unwrap();
                 buf.put_slice(&[b]);
@@ -58,15 +65,20 @@ impl AsyncWrite for Sock {
     fn poll_flush(self: Pin<&mut Self>, _: &mut Context<'_>) -> Poll<std::io::Result<()>> {
         let mut w = self.0.lock().unwrap();
         w.flushes += 1;
+        let rest = std::mem::take(&mut w.rest);
+        w.inbox.extend(rest);
         match w.replies.pop_front() {
-            Some((bytes, ends)) => {
+            Some((bytes, ends, desc)) => {
                 w.inbox.extend(bytes);
                 if ends { w.eof = true; }
+                w.log.push(desc);
             }
             None => {
                 let f = w.fallback.clone();
                 w.inbox.extend(f);
                 w.fallbacks_used += 1;
+                let d = w.fallback_desc.clone();
+                w.log.push(d);
                 if w.fallbacks_used > 3 { w.eof = true; }
             }
         }
@@ -151,25 +163,28 @@ fn run_case(c: &Value) -> Outcome {
         if last && c["dirty"] == true && bad_at >= 1 {
             limit = Some(total + if bad_at <= ends.len() { ends[bad_at - 1] } else { usize::MAX / 2 });
         }
-        let tail = seg["tail"].as_u64().unwrap() as usize;
+        let tail = if seg["kind"] == "split" { 0 } else { seg["tail"].as_u64().unwrap() as usize };
         if tail > 0 {
             // the first octets of one more PDU (a Cache Response header is as good as any), then the stream ends
             let more = [sv as u8, 4, 0, 0, 0, 0, 0, 20, 1, 24, 24, 0];
             bytes.extend_from_slice(&more[..tail]);
         }
         total += bytes.len();
-        if seg["kind"] != "wait" {
-            wire.lock().unwrap().replies.push_back((bytes, seg["ends"] == true));
+        if seg["kind"] == "reply" {
+            wire.lock().unwrap().replies.push_back((bytes, seg["ends"] == true, Value::Null));
         }
     }
     if let Some(l) = limit.as_mut() { if *l > total { *l = total; } }
     // the waits, in order of appearance relative to the replies: a "wait" segment precedes the reply of its step
-    let mut wait_before_reply: Vec<Option<Vec<u8>>> = Vec::new();
+    let mut wait_before_reply: Vec<Option<(Vec<u8>, usize)>> = Vec::new();
     {
-        let mut cur: Option<Vec<u8>> = None;
+        let mut cur: Option<(Vec<u8>, usize)> = None;
         for seg in &hist {
             if seg["kind"] == "wait" {
-                cur = Some(segment_bytes(seg, 0).0);
+                cur = Some((segment_bytes(seg, 0).0, 0));
+            } else if seg["kind"] == "split" {
+                // only the first `tail` octets arrive before the refresh timer fires
+                cur = Some((segment_bytes(seg, 0).0, seg["tail"].as_u64().unwrap() as usize));
             } else {
                 wait_before_reply.push(cur.take());
             }
@@ -182,7 +197,9 @@ fn run_case(c: &Value) -> Outcome {
         let mut pdus = vec![json!({"t": 3, "ot": 3, "v": v, "len": 8, "body": 0, "code": 0}),
                             json!({"t": 4, "ot": 4, "v": v, "len": 20, "body": 12, "code": 0})];
         pdus.push(if v == 0 { json!({"t": 7, "ot": 7, "v": v, "len": 12, "body": 4, "code": 0}) } else { json!({"t": 7, "ot": 7, "v": v, "len": 24, "body": 16, "code": 0}) });
-        wire.lock().unwrap().fallback = segment_bytes(&json!({"pdus": pdus}), 777).0;
+        let mut w = wire.lock().unwrap();
+        w.fallback = segment_bytes(&json!({"pdus": pdus}), 777).0;
+        w.fallback_desc = json!({"ev": "reply", "pdus": pdus, "tail": 0, "ends": false});
     }
     let want_steps = c["verdicts"].as_array().unwrap().len();
     let rt = tokio::runtime::Builder::new_current_thread().enable_time().start_paused(true).build().unwrap();
@@ -198,9 +215,14 @@ fn run_case(c: &Value) -> Outcome {
             if step > 0 {
                 // what arrives while the client waits for its refresh timer
                 let used = { let w = w2.lock().unwrap(); w.flushes };
-                if let Some(Some(bytes)) = wait_before_reply.get(used) {
+                if let Some(Some((bytes, split))) = wait_before_reply.get(used) {
                     let mut w = w2.lock().unwrap();
-                    w.inbox.extend(bytes.iter().copied());
+                    if *split == 0 {
+                        w.inbox.extend(bytes.iter().copied());
+                    } else {
+                        w.inbox.extend(bytes[..*split].iter().copied());
+                        w.rest = bytes[*split..].to_vec();
+                    }
                     if let Some(wk) = w.waker.take() { wk.wake(); }
                 }
             }
@@ -269,5 +291,155 @@ pub fn replay(args: &[String]) {
         if i % 1000 == 3 { s.sample(c.clone()); }
     }
     let _ = json!(null);
+    s.print();
+}
+
+// ---- impl -> spec: random conversations, recorded for Trace_RtrClientStream
+fn pdu(t: u64, v: u64, len: u64, code: u64) -> Value {
+    json!({"t": t, "v": v, "len": len, "code": code, "ot": t, "body": len - 8})
+}
+fn true_len(t: u64, v: u64) -> u64 {
+    match t { 3 | 8 | 2 => 8, 4 => 20, 6 => 32, 7 => if v == 0 { 12 } else { 24 }, 9 => 36, 11 => 20, 0 | 1 => 12, 10 => 16, _ => 8 }
+}
+fn data_reply(rng: &mut Rng, sv: u64) -> Vec<Value> {
+    let mut kinds = vec![4u64, 6];
+    if sv >= 1 { kinds.push(9); }
+    if sv >= 2 { kinds.push(11); }
+    let mut r = vec![pdu(3, sv, 8, 0)];
+    for _ in 0..rng.below(6) {
+        let t = *rng.pick(&kinds);
+        r.push(pdu(t, sv, true_len(t, sv), 0));
+    }
+    r.push(pdu(7, sv, true_len(7, sv), 0));
+    r
+}
+/// One header field of one PDU gets a value that is wrong whatever the session looks like.
+fn deviate(rng: &mut Rng, r: &mut [Value]) {
+    let i = rng.below(r.len() as u64) as usize;
+    let (t, v, len) = (r[i]["t"].as_u64().unwrap(), r[i]["v"].as_u64().unwrap(), r[i]["len"].as_u64().unwrap());
+    // (the length of an Error PDU is not touched: the reader skips whatever it announces, so another value only moves the
+    // PDU boundaries, which a conversation written down PDU by PDU cannot express)
+    match rng.below(if t == 10 { 2 } else { 3 }) {
+        0 => { let mut w = v; while w == v { w = *rng.pick(&[0u64, 1, 2, 3, 4, 77, 255]); } r[i]["v"] = json!(w); }
+        1 => {
+            let cand: &[u64] = if i == 0 { &[0, 1, 2, 4, 5, 6, 7, 9, 11, 12, 200, 255] } else { &[0, 1, 2, 3, 5, 8, 10, 12, 200, 255] };
+            r[i]["t"] = json!(*rng.pick(cand));
+            r[i]["code"] = json!(0);
+        }
+        _ => {
+            let cand: Vec<u64> = match t { 9 => vec![31, 8, 0], 11 => vec![len + 1, len + 2, len + 3, 8, 11], _ => vec![len + 1, len - 1, len + 4, 0, 7] };
+            let mut w = *rng.pick(&cand);
+            if w == len { w = len + 1; }
+            r[i]["len"] = json!(w);
+        }
+    }
+}
+
+pub fn drive(args: &[String]) {
+    let seed = arg_u64(args, "--seed", 1);
+    let n = arg_u64(args, "--n", 200);
+    let out = arg_val(args, "--out").expect("--out");
+    let mut rng = Rng::new(seed);
+    let mut t = TraceOut::create(&out);
+    let mut s = Summary::new();
+    for conv in 0..n {
+        let sv = rng.below(3);
+        let start_state = rng.chance(1, 3);
+        let wire = Arc::new(Mutex::new(Wire::default()));
+        wire.lock().unwrap().chunk = rng.range(1, 16) as usize;
+        {
+            let pdus = vec![pdu(3, sv, 8, 0), pdu(4, sv, 20, 0), pdu(7, sv, true_len(7, sv), 0)];
+            let mut w = wire.lock().unwrap();
+            w.fallback = segment_bytes(&json!({"pdus": pdus}), 777).0;
+            w.fallback_desc = json!({"ev": "reply", "pdus": pdus, "tail": 0, "ends": false});
+        }
+        // plan the conversation
+        let steps = rng.range(1, 5) as usize;
+        let mut has_state = start_state;
+        let mut settled = false;
+        let mut waits: Vec<Option<Value>> = Vec::new();
+        let mut deviated = false;
+        for st in 0..steps {
+            // what arrives while the client waits
+            waits.push(if st == 0 { None } else {
+                match rng.below(10) {
+                    0..=4 => None,
+                    5..=8 => Some(pdu(0, sv, 12, 0)),
+                    _ => { let mut p = [pdu(0, sv, 12, 0)]; loop { deviate(&mut rng, &mut p); if !(p[0]["t"] == 0 && p[0]["len"] == 12 && p[0]["v"] == sv) { break; } } deviated = true; Some(p[0].clone()) }
+                }
+            });
+            let mut replies: Vec<Vec<Value>> = Vec::new();
+            if !settled && sv < 2 && rng.chance(1, 3) { let mut d = pdu(10, sv, 16, 4); d["code"] = json!(4); replies.push(vec![d]); }
+            if has_state && rng.chance(1, 5) { replies.push(vec![pdu(8, sv, 8, 0)]); has_state = false; }
+            replies.push(data_reply(&mut rng, sv));
+            settled = true;
+            has_state = true;
+            let hit = if !deviated && rng.chance(1, 4) { Some(rng.below(replies.len() as u64) as usize) } else { None };
+            for (k, mut r) in replies.into_iter().enumerate() {
+                let mut tail = 0usize;
+                let mut ends = false;
+                let mut bytes;
+                if hit == Some(k) {
+                    deviated = true;
+                    if rng.chance(1, 3) {
+                        // the stream ends somewhere inside this reply
+                        let (all, pdu_ends) = segment_bytes(&json!({"pdus": r}), 100 + st as u32);
+                        let cut = rng.below(all.len() as u64) as usize;
+                        let whole = pdu_ends.iter().filter(|e| **e <= cut).count();
+                        let start = if whole == 0 { 0 } else { pdu_ends[whole - 1] };
+                        tail = cut - start;
+                        ends = true;
+                        r.truncate(whole);
+                        bytes = all[..cut].to_vec();
+                        let _ = &mut bytes;
+                        wire.lock().unwrap().replies.push_back((bytes, true, json!({"ev": "reply", "pdus": r, "tail": tail, "ends": true})));
+                        continue;
+                    }
+                    deviate(&mut rng, &mut r);
+                }
+                bytes = segment_bytes(&json!({"pdus": r}), 100 + st as u32).0;
+                wire.lock().unwrap().replies.push_back((bytes, ends, json!({"ev": "reply", "pdus": r, "tail": tail, "ends": ends})));
+            }
+        }
+        t.ev(json!({"ev": "start", "sv": sv, "state": start_state}));
+        let rt = tokio::runtime::Builder::new_current_thread().enable_time().start_paused(true).build().unwrap();
+        let state = if start_state { Some(State::from_parts(SESSION, Serial::from(99))) } else { None };
+        let w2 = wire.clone();
+        let res = guarded(|| {
+            let mut evs: Vec<Value> = Vec::new();
+            rt.block_on(async {
+                let mut client = Client::new(Sock(w2.clone()), Target::default(), state);
+                for (st, wait) in waits.iter().enumerate() {
+                    if st > 0 {
+                        if w2.lock().unwrap().eof { break; }
+                        match wait {
+                            None => evs.push(json!({"ev": "wait", "pdus": []})),
+                            Some(p) => {
+                                let bytes = pdu_bytes(p, 5);
+                                let mut w = w2.lock().unwrap();
+                                w.inbox.extend(bytes);
+                                if let Some(wk) = w.waker.take() { wk.wake(); }
+                                evs.push(json!({"ev": "wait", "pdus": [p]}));
+                            }
+                        }
+                    }
+                    let before = client.target().applied.len();
+                    let r = tokio::time::timeout(std::time::Duration::from_secs(10_000_000), client.step()).await;
+                    evs.append(&mut w2.lock().unwrap().log);
+                    match r {
+                        Err(_) => { evs.push(json!({"ev": "step", "verdict": "hang", "items": 0})); break; }
+                        Ok(Ok(())) => evs.push(json!({"ev": "step", "verdict": "ok", "items": client.target().applied.get(before).map(|a| a.1).unwrap_or(9999)})),
+                        Ok(Err(_)) => { evs.push(json!({"ev": "step", "verdict": "err", "items": 0})); break; }
+                    }
+                }
+            });
+            evs
+        });
+        match res {
+            Ok(evs) => { for e in evs { t.ev(e); } s.eval(Some(&format!("{conv}"))); }
+            Err(m) => s.violation("trace:panic", format!("the client panics: {m}"), json!({"seed": seed, "conversation": conv})),
+        }
+    }
+    s.set("events", json!(t.finish()));
     s.print();
 }
